@@ -215,3 +215,87 @@ def run_lme(qt, empi, loss, algo, history=True, func_proj=None, **opt):
     r, msg = quiet(est.calc_estimate, qt, empi, lobj, lo, aobj, aopt,
                    is_computation_time_required=history, is_detailed_results_required=history)
     return r, msg, lobj, aobj, aopt
+
+
+# ----------------------------------------------------------------------------- independent reference projection (numpy only)
+def _clip_psd(mat):
+    h = (mat + mat.conj().T) / 2
+    w, v = np.linalg.eigh(h)
+    return (v * np.clip(w, 0, None)) @ v.conj().T
+
+
+class RefProjector:
+    """Nearest physical point in the stacked-parameter (Euclidean) metric, by a Dykstra iteration written here from the two
+    elementary projections only: eigenvalue clipping of the density / POVM-element / Choi matrices and the affine equality
+    projection.  Uses nothing of quara but the matrix basis of the composite system."""
+
+    def __init__(self, obj):
+        self.c = obj.composite_system
+        self.d = self.c.dim
+        self.B = qobj.basis_mats(self.c)
+        self.n = len(self.B)
+        if isinstance(obj, State):
+            self.kind, self.m = "state", 1
+        elif isinstance(obj, Povm):
+            self.kind, self.m = "povm", len(obj.vecs)
+        elif isinstance(obj, Gate):
+            self.kind, self.m = "gate", 1
+        else:
+            self.kind, self.m = "mprocess", len(obj.hss)
+        if self.kind in ("gate", "mprocess"):
+            # orthonormal operator basis of the Choi space, flattened: hs[a,b] <-> B_a (x) conj(B_b)
+            self.K = np.array([np.kron(a, b.conj()).reshape(-1) for a in self.B for b in self.B])   # (n*n, d^4)
+
+    # -- elementary projections on stacked vectors
+    def _psd_vec(self, v):
+        mat = sum(x * b for x, b in zip(v, self.B))
+        p = _clip_psd(mat)
+        return np.array([np.trace(b.conj().T @ p).real for b in self.B])
+
+    def _psd_hs(self, hsflat):
+        J = (hsflat @ self.K).reshape(self.d ** 2, self.d ** 2)
+        P = _clip_psd(J)
+        return (self.K.conj() @ P.reshape(-1)).real
+
+    def proj_ineq(self, s):
+        if self.kind == "state":
+            return self._psd_vec(s)
+        if self.kind == "povm":
+            return np.concatenate([self._psd_vec(v) for v in s.reshape(self.m, self.n)])
+        if self.kind == "gate":
+            return self._psd_hs(s)
+        return np.concatenate([self._psd_hs(v) for v in s.reshape(self.m, self.n * self.n)])
+
+    def proj_eq(self, s):
+        s = np.array(s, dtype=float)
+        if self.kind == "state":
+            s[0] = 1 / np.sqrt(self.d)
+            return s
+        if self.kind == "povm":
+            vs = s.reshape(self.m, self.n).copy()
+            target = np.zeros(self.n); target[0] = np.sqrt(self.d)
+            vs -= (vs.sum(axis=0) - target) / self.m
+            return vs.reshape(-1)
+        e0 = np.zeros(self.n); e0[0] = 1.0
+        if self.kind == "gate":
+            hs = s.reshape(self.n, self.n).copy()
+            hs[0] = e0
+            return hs.reshape(-1)
+        hss = s.reshape(self.m, self.n, self.n).copy()
+        hss[:, 0, :] -= (hss[:, 0, :].sum(axis=0) - e0) / self.m
+        return hss.reshape(-1)
+
+    def project(self, z, tol=1e-13, max_iter=20000):
+        """returns (nearest physical point, iterations, converged)"""
+        x = np.array(z, dtype=float)
+        p = np.zeros_like(x); qq = np.zeros_like(x)
+        for it in range(max_iter):
+            y = self.proj_eq(x + p)
+            p = x + p - y
+            xn = self.proj_ineq(y + qq)
+            qq = y + qq - xn
+            done = np.linalg.norm(xn - x) < tol and np.linalg.norm(xn - y) < 10 * tol
+            x = xn
+            if done:
+                return x, it + 1, True
+        return x, max_iter, False
